@@ -101,6 +101,24 @@ def closeDelivery (conns : Conns) (dataFail : Nat → Bool) (pool : Pool) : Pool
 structure Tx where
   rcpts : List Rcpt
   dataFail : Nat → Bool
+  /-- connections (by key) whose goroutine could not open the message buffer (`b.Open()` failed:
+  spool file gone, EMFILE, …). Which of the connections that is depends on the scheduler — an oracle;
+  the connection reports the error for ITS `Rcpts()` and never sends DATA. -/
+  openFail : Nat → Bool := fun _ => false
+  /-- connections whose body reader failed mid-way: `C.Data` gives up inside the message data, the
+  connection is dropped without the end-of-data marker (the server discards the partial message). -/
+  readFail : Nat → Bool := fun _ => false
+  /-- `msgMeta.Quarantine` was set after the recipients had been added: `BodyNonAtomic` refuses the
+  message for every entry of `rd.recipients` and sends nothing. -/
+  quarantine : Bool := false
+
+/-- the connections whose recipients did not get the message: end-of-data refused, or the body never
+(completely) reached the connection -/
+def Tx.fails (tx : Tx) (d : Nat) : Bool := tx.dataFail d || tx.openFail d || tx.readFail d
+
+/-- connections that cannot be reused afterwards (`mxConn.errored`): `C.Data` returned an error. A
+connection whose goroutine could not open the buffer sent nothing and stays usable (RSET). -/
+def Tx.breaks (tx : Tx) (d : Nat) : Bool := (tx.dataFail d || tx.readFail d) && !tx.openFail d
 
 structure TxObs where
   adds : List (Nat × Bool)
@@ -112,9 +130,10 @@ structure TxObs where
 no status is reported.) -/
 def runTx (utf8 : Bool) (pool : Pool) (tx : Tx) : Pool × TxObs :=
   let ((conns, pool', recips), adds) := addAll utf8 ([], pool, []) tx.rcpts
-  let sts := if recips.isEmpty then [] else bodyStatuses conns tx.dataFail
-  let dl := if recips.isEmpty then [] else delivered conns tx.dataFail
-  (closeDelivery conns tx.dataFail pool', ⟨adds, sts, dl⟩)
+  let sts := if recips.isEmpty then [] else
+    if tx.quarantine then recips.map (fun id => (id, false)) else bodyStatuses conns tx.fails
+  let dl := if recips.isEmpty || tx.quarantine then [] else delivered conns tx.fails
+  (closeDelivery conns (if tx.quarantine then fun _ => false else tx.breaks) pool', ⟨adds, sts, dl⟩)
 
 def runHistory (utf8 : Bool) : Pool → List Tx → List TxObs
   | _, [] => []
@@ -137,5 +156,14 @@ def translate (orig : List (Nat × Nat)) (eff : Nat) : Nat :=
   match orig.find? (fun e => e.1 == eff) with
   | some e => e.2
   | none => eff
+
+/-- A nested pipeline (`reroute { … }`, a pipeline used as a target) sits between the target and
+the outer pipeline and gets the very same `*MsgMetadata`. Every `msgpipelineDelivery` translates
+through the table of the rewrites IT made (`msgpipelineDelivery.originalRcpts`): the result for a
+final address goes through the inner delivery's table first, then through the outer one's — ONE
+look-up each. `MsgMetadata.OriginalRcpts` (shared by all of them, possibly pre-filled by a pipeline
+the message passed before a queue) takes no part in the translation. -/
+def translateNested (outer inner : List (Nat × Nat)) (fin : Nat) : Nat :=
+  translate outer (translate inner fin)
 
 end MaddyVerif.StatusKeys
